@@ -63,6 +63,36 @@ func NewOracle(prop string, w *World, m *Model) Oracle {
 	switch prop {
 	case "C01":
 		return newC01(w, m)
+	case "C02":
+		return newC02(w, m)
+	case "C03":
+		return newC03(w, m)
+	case "C04":
+		return newC04(w, m)
+	case "C05":
+		return newC05(w, m)
+	case "C06":
+		return newC06(w, m)
+	case "C07":
+		return newC07(w, m)
+	case "C08":
+		return newC08(w, m)
+	case "C09":
+		return newC09(w, m)
+	case "C10":
+		return newC10(w, m)
+	case "C11":
+		return newC11(w, m)
+	case "C12":
+		return newC12(w, m)
+	case "C13":
+		return newC13(w, m)
+	case "C14":
+		return newC14(w, m)
+	case "C15":
+		return newC15(w, m)
+	case "C16":
+		return newC16(w, m)
 	}
 	panic("harness: no oracle for " + prop)
 }
